@@ -208,6 +208,46 @@ def _xvg_shard(arg):
     return res
 
 
+# ---- atheris adapters (thorough tier): structured xvg files inside the stated envelope ---------------------------------
+
+def fuzz_decode(fdp):
+    n_hash = fdp.ConsumeIntInRange(0, 13)
+    K = fdp.ConsumeIntInRange(1, 10)
+    legends = []
+    for i in range(K):
+        txt = fdp.ConsumeUnicodeNoSurrogates(12)
+        txt = "".join(ch for ch in txt if 32 <= ord(ch) <= 126 and ch != '"')
+        if not txt.strip() or txt in legends or txt == "Time [ps]":
+            txt = f"series {i}" + " " * fdp.ConsumeIntInRange(0, 2)
+        legends.append(txt)
+    if len(set(legends)) != len(legends):
+        return None
+    other = ['@    title "GROMACS Energies"', "@TYPE xy", "@ legend on", "@ view 0.15, 0.15, 0.75, 0.85", "@ legend box on"]
+    n_other = max(0, 13 - n_hash - K) + fdp.ConsumeIntInRange(0, 5)
+    at_lines = [other[i % len(other)] for i in range(n_other)]
+    cut = fdp.ConsumeIntInRange(0, len(at_lines))
+    at_lines = at_lines[:cut] + [f'@ s{i} legend "{t}"' for i, t in enumerate(legends)] + at_lines[cut:]
+    rows = []
+    for _ in range(fdp.ConsumeIntInRange(1, 12)):
+        row = []
+        for _ in range(K + 1):
+            k = fdp.ConsumeIntInRange(0, 6)
+            m = fdp.ConsumeIntInRange(-10 ** 9, 10 ** 9)
+            x = m / 10 ** k
+            row.append(f"{x:.{k}f}" if fdp.ConsumeIntInRange(0, 2) else "%.10g" % x)
+        rows.append(row)
+    return {"hash_lines": [" c%d" % i for i in range(n_hash)], "at_lines": at_lines, "legends": legends, "rows": rows,
+            "lead": ["", " ", "    "][fdp.ConsumeIntInRange(0, 2)], "gap": [" ", "  ", "\t"][fdp.ConsumeIntInRange(0, 2)]}
+
+
+def fuzz_judge(case):
+    return judge_xvg(case)
+
+
+def fuzz_nontrivial(case):
+    return len(case["legends"]) >= 2 and len(case["rows"]) >= 2 and len(case["hash_lines"]) + len(case["at_lines"]) != 13
+
+
 def replay(case):
     if "rows" in case:
         return judge_xvg(case)
@@ -233,6 +273,9 @@ def run(tier):
     results = pmap(_grid_one, specs)
     results += pmap(_xvg_shard, [(s, n_xvg // 16) for s in range(16)])
     res = merge_results(results)
+    if tier == "thorough":
+        from vlib.core import run_fuzz_campaign
+        res.merge(run_fuzz_campaign("C20", runs=160000, shards=16))
     rule = (f"grids: {len(specs)} specifications (rotation grids {b_opts} x direction grids {o_opts} x 1..3 radii x both "
             f"position modes, four factors) written and read back; energy tables: Hypothesis-generated xvg texts with 0..13 '#' "
             f"lines, enough '@' lines for >=13 header lines, 1..10 distinct legends (GROMACS names and arbitrary printable "
